@@ -6,7 +6,7 @@
 -/
 import Hv.Storage.Crash
 
-namespace Hv.Storage
+namespace Hv.BlockStore
 
 inductive Ev where
   | blk (b : Block)
@@ -302,4 +302,4 @@ theorem ev_images (nl : Nat) (evs : List Ev) : ∀ (f D : List Cell) (d : Disk),
         have : ¬ (i' + 3 < 3) := by omega
         simpa [this] using h1
 
-end Hv.Storage
+end Hv.BlockStore
